@@ -39,7 +39,9 @@ def _registry_field(ctx: Ctx):
     for n in nodes_in(init, (ast.Assign, ast.AnnAssign)):
         targets = n.targets if isinstance(n, ast.Assign) else [n.target]
         for t in targets:
-            if isinstance(t, ast.Attribute) and isinstance(n.value, ast.Dict):
+            # a dict display, or a comprehension `{plugin_type: {} for plugin_type in ...}` / dict(...) building it
+            if isinstance(t, ast.Attribute) and (isinstance(n.value, (ast.Dict, ast.DictComp)) or (
+                    isinstance(n.value, ast.Call) and isinstance(n.value.func, ast.Name) and n.value.func.id == "dict")):
                 return c, init, t.attr, n
     raise AnalysisError("registry dict of the plug-in manager not found")
 
@@ -455,7 +457,24 @@ def c19_3(ctx: Ctx) -> RuleResult:
     res = RuleResult("C19.3", "WHO", "the registry is per-manager instance state")
     c, init, reg, node = _registry_field(ctx)
     # created by a dict literal of dict literals in __init__ (fresh objects per instance)
-    ok = isinstance(node.value, ast.Dict) and all(isinstance(v, ast.Dict) and not v.keys for v in node.value.values)
+    def fresh_empty(v):
+        return (isinstance(v, ast.Dict) and not v.keys) or (isinstance(v, ast.Call) and isinstance(v.func, ast.Name) and v.func.id == "dict" and not v.args and not v.keywords)
+
+    comp_keys = None
+    if isinstance(node.value, ast.DictComp) and len(node.value.generators) == 1 and not node.value.generators[0].ifs \
+            and isinstance(node.value.generators[0].target, ast.Name) and isinstance(node.value.key, ast.Name) and node.value.key.id == node.value.generators[0].target.id:
+        # {plugin_type: {} for plugin_type in get_args(PluginType)}: one fresh dict per key, the keys are the members of the Literal
+        it = node.value.generators[0].iter
+        if isinstance(it, ast.Call) and isinstance(it.func, ast.Name) and it.func.id == "get_args" and len(it.args) == 1 and isinstance(it.args[0], ast.Name):
+            for mod in ctx.repo.modules.values():
+                lit = mod.constants.get(it.args[0].id)
+                if isinstance(lit, ast.Subscript) and (dotted(lit.value) or "").split(".")[-1] == "Literal":
+                    elts = lit.slice.elts if isinstance(lit.slice, ast.Tuple) else [lit.slice]
+                    if all(isinstance(e, ast.Constant) for e in elts):
+                        comp_keys = {e.value for e in elts}
+        elif isinstance(it, (ast.Tuple, ast.List)) and all(isinstance(e, ast.Constant) for e in it.elts):
+            comp_keys = {e.value for e in it.elts}
+    ok = (isinstance(node.value, ast.Dict) and all(fresh_empty(v) for v in node.value.values)) or (comp_keys is not None and fresh_empty(node.value.value))
     res.add(init, node, "the registry is a fresh dict of fresh empty dicts created in __init__", ok,
             "" if ok else "registry sub-dicts are shared objects", construct="registry created in __init__")
     # not a class attribute
@@ -465,7 +484,7 @@ def c19_3(ctx: Ctx) -> RuleResult:
     # all plug-in types of the Literal are initialised
     types = ctx.repo.module("ropt.plugins._manager").constants.get("_PLUGIN_TYPES")
     keys = {k.value for k in types.keys} if isinstance(types, ast.Dict) else set()
-    have = {k.value for k in node.value.keys if isinstance(k, ast.Constant)} if isinstance(node.value, ast.Dict) else set()
+    have = {k.value for k in node.value.keys if isinstance(k, ast.Constant)} if isinstance(node.value, ast.Dict) else (comp_keys or set())
     res.add(init, node, "every plug-in type has its own registry", keys == have and bool(keys), "" if keys == have else f"types {sorted(keys ^ have)} differ",
             construct="registry covers all plugin types")
     # writers: only __init__ and add_plugin store into it
